@@ -159,6 +159,21 @@ def enc_calls(g, tier, heavy=False):
                          0x00FF, 0xFF00, 0x0001_0000 | r.randrange(1 << 16)])
         m = g.rbytes(r.choice([0, 1, 2, 5, 17, 64]))
         calls.append(("vendorDefined", ["%02x.%08x.%04x" % (f, data, r.randrange(1 << 16)), hx(m)]))
+    # products of special values over every pair of parameters
+    SP = (0x00, 0x01, 0x7F, 0x80, 0xFE, 0xFF)
+    for a_ in SP:
+        for b_ in SP:
+            calls.append(("reqAllocate", [hb(a_ % 3), hb(a_), hb(b_)]))
+            calls.append(("reqQueryHop", [hb(a_), hb(r.choice(HOP_TYPES))]))
+            calls.append(("respVendor", [hb(a_ % 6), hb(b_), hx([a_, b_, a_])]))
+    for u in ([0] * 16, [0xFF] * 16, g.rbytes(16), [0] * 15 + [1], [0xFF] * 15 + [0]):
+        for h_ in (0x00, 0xFF, 0x01, 0x80):
+            calls.append(("reqResolveUuid", [hx(u), hb(h_)]))
+        for cc in (0, 1, 5):
+            calls.append(("respUuid", [hb(cc), hx(u)]))
+    for (f, data, num) in ((0, 0, 0), (0, 0, 0xBEEF), (0, 0, 1), (1, 0, 0), (1, 0, 0xFFFF), (0, 0xFFFF, 0xFFFF), (1, 0xFFFFFFFF, 0), (0, 0x10000, 7)):
+        for m_ in ([], [1, 2, 3]):
+            calls.append(("vendorDefined", ["%02x.%08x.%04x" % (f, data, num), hx(m_)]))
     # vendor bodies that begin with what the encoder is about to emit itself, or with other headers
     for (f, data) in ((0, 0x1234), (0, 0x7E7E), (1, 0x00C0FFEE), (1, 0x7F000001), (0, 0x0F01)):
         hdr = [(data >> 8) & 0xFF, data & 0xFF] if f == 0 else [(data >> 24) & 0xFF, (data >> 16) & 0xFF, (data >> 8) & 0xFF, data & 0xFF]
@@ -291,6 +306,8 @@ def gen_encoders(g, tier, addr_mode, bufs=("exact+", "rand")):
         for mode in bufs:
             if mode == "exact+":
                 b = g.buf(size + r.choice([0, 1, 17]), r.choice([0x00, 0xFF, None]))
+            elif r.random() < 0.04:
+                b = g.buf(r.choice([65535, 65536, 65537, 65536 + size, 131072]), 0x00)
             elif r.random() < 0.25:
                 # large caller buffers, around the one-byte and two-byte boundaries
                 b = g.buf(r.choice([255, 256, 257, 259, 260, 261, 262, 270, 276, 300, 511, 512, 513, 516, 530, 1024]) + (size if size > 250 else 0), r.choice([0x00, 0xA5]))
@@ -414,6 +431,20 @@ def gen_decode_families(g, tier, verb="dec", ctxs=None, proc_buf=None):
                 emit(refix(q), "sweep%d" % pos)
                 if v % (stride * 8) == 0:
                     emit(q, "sweep%d-stale" % pos)
+    # count-prefixed payloads as DSP0236 allows them (several version entries, several types, …):
+    # consistent and inconsistent (count, length) pairs
+    for cmd, per in ((4, 4), (5, 1), (9, 4), (6, 1), (1, 1), (3, 4)):
+        for k in range(0, 6):
+            for extra in (0, 1, -1):
+                n = max(0, 1 + per * k + extra)
+                data = [k] + g.rbytes(max(0, n - 1))
+                emit(forge(0x23, 0x34, 0x23, 0x34, 0, ctrl_resp(cmd, 0, data[:n])), "counted:resp%02x" % cmd)
+                emit(forge(0x23, 0x34, 0x23, 0x34, 0, ctrl_req(cmd, data[:n])), "counted:req%02x" % cmd)
+    # control byte (Rq, D, reserved, instance) x completion code x command
+    for b9 in (0x00, 0x40, 0x20, 0x60, 0x1F, 0x5F, 0x7F):
+        for cc in range(0, 8):
+            for cmd, n in ((1, 3), (3, 16), (4, 5), (5, 2), (2, 4)):
+                emit(forge(0x23, 0x34, 0x23, 0x34, 0, [b9, cmd, cc] + g.rbytes(n)), "ctl-byte-x-cc")
     # every value of every data byte of the fixed-length requests and responses
     for cmd, n in sorted(REQ_FIXED.items()):
         base = forge(0x23, 0x34, 0x23, 0x34, 0, ctrl_req(cmd, g.rbytes(n)))
@@ -1080,7 +1111,9 @@ def gen_for(prop, tier, seed):
         gen_state_probes(g, tier)
         # configurations with repeated sets (equal to the last one, to the first one, all equal)
         A, Bv, Cv = (0, 0x1234, 7), (1, 0xCAFE0001, 9), (0, 0x1234, 8)
-        for vendors in ([A, Bv, A], [A, A], [A, A, A, A], [Bv, A, Bv, A], [A, Cv, A, Cv, A], [Bv, Bv, A]):
+        Z, Z1 = (0, 0, 0), (1, 0, 0)
+        for vendors in ([A, Bv, A], [A, A], [A, A, A, A], [Bv, A, Bv, A], [A, Cv, A, Cv, A], [Bv, Bv, A],
+                        [A, Z], [A, Bv, Z, Z], [Z, A], [Z], [Z, Z, Z], [A, Z1], [Z1, Z], [A, Z, Bv], [(0, 0, 1), Z], [(0, 0xFFFF, 0xFFFF), (1, 0xFFFFFFFF, 0xFFFF)]):
             for bl in (64, 260, 300, 516):
                 cid = g.ctx(0x31, [], vendors)
                 for sel in list(range(len(vendors))) + [0, len(vendors) - 1, 1 % len(vendors)]:
@@ -1107,9 +1140,13 @@ def gen_for(prop, tier, seed):
         cid = g.ctx(0x4D, [0x7E], [(0, 1, 1)])
         headfix = g.rbytes(8)
         for u in ([0] * 8 + g.rbytes(8), [0] * 15 + [1], headfix + g.rbytes(8), headfix + g.rbytes(8), headfix + [0] * 8,
-                  g.rbytes(8) + headfix, [0] * 16, [0xFF] * 16, [0xFF] * 15 + [0xFE], [0] * 16):
+                  g.rbytes(8) + headfix, [0] * 16, [0xFF] * 16, [0xFF] * 15 + [0xFE], [0] * 16,
+                  g.rbytes(16), [0xFF] * 16, g.rbytes(16), [0] * 16, g.rbytes(16), [0x00] * 15 + [0xFF], [0xFF] * 16, [0xFF] * 16, [1] * 16, [0] * 16, [0xFF] * 16):
             g.add("setuuid %s %s" % (cid, hx(u)), "uuid-relation:set")
             g.add("proc %s %s %s" % (cid, hx(forge(0x4D, 0x19, 0x4D, 0x19, 0, ctrl_req(3, []))), hx(g.buf(64))), "uuid-relation:query")
+        for n in (0, 1, 15, 17, 32):
+            g.add("setuuid %s %s" % (cid, hx(g.rbytes(n))), "uuid-wrong-length")
+            g.add("proc %s %s %s" % (cid, hx(forge(0x4D, 0x19, 0x4D, 0x19, 0, ctrl_req(3, []))), hx(g.buf(64))), "uuid-wrong-length:query")
         gen_exact_buffers(g, tier)
         gen_state_probes(g, tier)
         # configuration shapes: special type codes against vendor sets of one format only / both
